@@ -707,8 +707,8 @@ pub fn render(al: &AL, o: &RenderOpts) -> (String, Layout) {
             s.push_str(if excl { DIRECTIVES_EXCL[dv] } else { DIRECTIVES_INCL[dv] });
             let mut first = true;
             while i < al.states.len() && al.states[i].1 == excl {
-                // (between the directive and the first name always a plain blank)
-                s.push_str(if first { " " } else { STATE_SEPS[(o.state_sep + i) % STATE_SEPS.len()] });
+                // (any one blank character also between the directive word and the first name)
+                s.push_str(if first { STATE_SEPS[(o.state_sep + 2 * i + 1) % STATE_SEPS.len()] } else { STATE_SEPS[(o.state_sep + i) % STATE_SEPS.len()] });
                 first = false;
                 let st = s.len();
                 s.push_str(&al.states[i].0);
